@@ -29,12 +29,7 @@ def main():
             if what == "carver":
                 obj = fitgen.fit_carver(ds, cfg, n_jobs=job["n_jobs"])
             else:
-                from AutoCarver import discretizers as D
-                from AutoCarver.discretizers import GroupedList
-                vo = {k: GroupedList(list(v)) for k, v in ds["values_orders"].items()}
-                obj = D.Discretizer(quantitative_features=list(ds["quantitative"]), qualitative_features=list(ds["qualitative"]),
-                                    ordinal_features=list(ds["ordinal"]), min_freq=cfg["min_freq"], values_orders=vo, copy=True,
-                                    n_jobs=job["n_jobs"])
+                obj = fitgen.make_discretizer("Discretizer", ds, cfg, copy=True, n_jobs=job["n_jobs"])
                 obj.fit(ds["X"], ds["y"])
             Xt = obj.transform(ds["X"])
         for f in obj.features:
